@@ -11,3 +11,11 @@ void h_absorb(void) { g_w = vc_nondet_size("g_w"); mi_heap_t* a; mi_heap_t* b; m
 void h_delete(void) { mi_heap_t* h; mi_heap_delete(h); VC_REACH(); }
 void h_destroy(void) { mi_heap_t* h; mi_heap_destroy(h); VC_REACH(); }
 void h_heap_free(void) { mi_heap_t* h; mi_heap_free(h); VC_REACH(); }
+void h_page_destroy(void) {
+  g_dheap = malloc(sizeof(mi_heap_t)); g_dtld = malloc(sizeof(mi_tld_t)); g_dpage = malloc(sizeof(mi_page_t));
+  __CPROVER_assume(g_dheap != NULL && g_dtld != NULL && g_dpage != NULL);
+  g_dheap->tld = g_dtld; g_udf_n = 0; g_dspf_n = 0;
+  mi_page_queue_t* pq; void* a1; void* a2;
+  bool r = _mi_heap_page_destroy(g_dheap, pq, g_dpage, a1, a2);
+  VC_REACH();
+}
